@@ -14,6 +14,7 @@
 #include <chrono>
 #include <atomic>
 #include <vector>
+#include <algorithm>
 #include <typeinfo>
 #include <typeindex>
 #include <cassert>
@@ -302,6 +303,26 @@ namespace sqf::runtime
                     else  { m_context_active = m_contexts.front(); return *m_context_active; }
                 };
                 std::shared_ptr<sqf::runtime::context> context_active_as_shared() const { return m_context_active; };
+                /// <summary>
+                /// The script the step actions (assembly step, line step, leave scope) work on is the
+                /// active one. A script that has been stepped to its end is dropped here, so that the
+                /// next loaded script takes its place instead of the steps doing nothing for ever.
+                /// </summary>
+                void select_step_context()
+                {
+                    while (true)
+                    {
+                        if (!m_context_active)
+                        {
+                            if (m_contexts.empty()) { return; }
+                            m_context_active = m_contexts.front();
+                        }
+                        if (!m_context_active->empty()) { return; }
+                        auto found = std::find(m_contexts.begin(), m_contexts.end(), m_context_active);
+                        if (found != m_contexts.end()) { m_contexts.erase(found); }
+                        m_context_active = {};
+                    }
+                }
                 std::weak_ptr<context> context_create() { auto ptr = std::make_shared<context>(); m_contexts.push_back(ptr); return ptr; }
                 context_iterator context_begin() { return m_contexts.begin(); }
                 context_iterator context_end() { return m_contexts.end(); }
